@@ -12,7 +12,7 @@ import os
 from redun import task
 from redun.context import get_context
 from redun.functools import seq
-from vp.core import SL, Condition, choose, excluded, guard, native
+from vp.core import SL, Condition, assume, choose, excluded, guard, native
 
 RS = importlib.import_module("redun.scheduler")
 
@@ -26,6 +26,8 @@ ASSUMPTIONS = [
     "arrangements: parallel list in one execution, seq (one after the other) in one execution, successive executions on one "
     "backend; the context-reading task with check_valid full or shallow",
     "stock thread executor, real in-memory SQLite backend (no stub); the order in which parallel calls complete is not controlled",
+    "c05_kernel: S4 FakeSession (the real clause objects evaluated over symbolic rows); get_call_cache always finds the result, "
+    "get_eval_cache never; at most one context tag per call node",
 ]
 
 NS = "vp_c05"
@@ -152,10 +154,35 @@ def c05_history(k: int) -> bool:
     return guard(body, k=k)
 
 
+def c05_kernel(k: int) -> bool:
+    """
+    post: _
+    """
+    def body():
+        from vp.harness import dbkern as K
+        pi, pc, pb = K.sym_pickers()
+        nn, nj, nt = SL()
+        case = K.ctx_case(pi, K.fixed_pick(pc, {"n_nodes": nn, "n_jobs": nj, "n_tags": nt}), pb)
+        # one context tag per call node at most (record_call_node_context writes exactly one)
+        for n in case["nodes"]:
+            assume(sum(1 for t in case["tags"] if t["entity_id"] == n["call_hash"] and t["key"] == K.CTX) <= 1)
+        ok, detail, listed = K.ctx_check(case, K.ctx_run_fake)
+        if not ok and listed and excluded("context-free-call-reuses-context-result"):
+            return True
+        return ok
+    return guard(body, k=k)
+
+
 _Q = [(2, a, s, None, 0) for a in range(3) for s in (0, 1)] + [(3, a, s, km, 0) for a in (1, 2) for s in (1,) for km in (0, 1, 2)] \
     + [(3, 0, 0, 0, 0)] + [(2, a, s, None, 1) for a in range(3) for s in (0, 1)]
 _TT = [(3, a, s, None, b) for a in range(3) for s in (0, 1) for b in (0, 1)]
+_KT = [(a, b, c) for a in (0, 1) for b in (0, 1, 2) for c in (0, 1, 2)]
+_KQ = [(a, b, c) for (a, b, c) in _KT if a + b + c <= 3]
 CONDITIONS = [
+    Condition(c05_kernel, slices=_KQ, thorough_slices=_KT, timeout=250, thorough_timeout=1800,
+              bounds="slice = (call nodes - 1, jobs, tags); real check_cache / _get_call_node on the S4 session: 1-2 call nodes, 0-2 jobs, 0-2 tags; task / argument / "
+                     "execution / context tokens, timestamps and start times are unbounded symbolic ints; cache scope CSE/BACKEND, "
+                     "check_valid full/shallow; a CSE or ULTIMATE hit must carry exactly the requested context"),
     Condition(c05_history, slices=_Q, thorough_slices=_TT, timeout=280, thorough_timeout=2400,
               bounds="slice = (calls, arrangement index into %r, context-reading task shallow?, fixed dependency kind or None, execution "
                      "itself under a non-empty context?); "
@@ -163,7 +190,26 @@ CONDITIONS = [
 ]
 
 
+def self_test(seed):
+    from vp.harness import dbkern as K
+    return {"S4_vs_sqlite_agreeing_cases": K.differential("ctx", seed)}
+
+
+def warmup(cond):
+    if cond == "c05_kernel":
+        from vp.harness import dbkern as K
+        K.warm("ctx")
+
+
 def replay(cond, args, extra):
+    if cond == "c05_kernel":
+        from vp.harness import dbkern as K
+        pi, pc, pb = K.replay_pickers(extra["choices"])
+        nn, nj, nt = extra["slice"]
+        case = K.ctx_case(pi, K.fixed_pick(pc, {"n_nodes": nn, "n_jobs": nj, "n_tags": nt}), pb)
+        ok, detail, listed = K.ctx_check(case, K.ctx_run_real)
+        return (not ok), detail + " (rows written to the real SQLite backend: %r)" % ({k: case[k] for k in ("nodes", "jobs", "tags")},), (
+            "context-free-call-reuses-context-result" if (not ok and listed) else None)
     n, arrange_i, shallow, kind_mode, base_ctx = extra["slice"]
     it = iter(extra["choices"])
     calls = []
